@@ -98,6 +98,23 @@ Proof.
   destruct Hin as [<-|Hin]; [apply IH | apply IHr; exact Hin].
 Qed.
 
+(* ---- parse_fill_kw / parse_trcl_kw: an explicit transformation never parses to the empty one -- *)
+Lemma parse_tr_params_explicit : forall is_fill star trid params table l,
+  params <> [] -> (forall k c, dget k table = Some c -> c <> []) ->
+  parse_tr_params is_fill star trid params table = Ok (TSList l) -> l <> [].
+Proof.
+  intros is_fill star trid params table l Hne Htab H. unfold parse_tr_params in H.
+  destruct params as [|a [|b [|c [|d r]]]]; [contradiction| | | |]; try discriminate.
+  - destruct (dget trid table) as [card|] eqn:E; [|discriminate]. inversion H; subst.
+    specialize (Htab _ _ E). destruct card; [contradiction | discriminate].
+  - inversion H. discriminate.
+Qed.
+
+(* a FILL keyword, starred or not, without any number: no transformation *)
+Lemma parse_tr_params_fill_none : forall star trid table,
+  parse_tr_params true star trid [] table = Ok (TSList []).
+Proof. intros star trid table. cbn. rewrite andb_false_r. reflexivity. Qed.
+
 Section Proofs.
 Variable T : Type.
 Variable surf : Type.
